@@ -313,6 +313,12 @@ AST_TO_REVERSE = {
     node_cls: _NEG_OPERATOR_TO_AST[op]
     for node_cls, (op, _, _) in COMPARATOR_TO_OPERATOR.items()
 }
+MIRRORED_COMPARATORS: dict[type[ast.cmpop], type[ast.cmpop]] = {
+    ast.Lt: ast.Gt,
+    ast.LtE: ast.GtE,
+    ast.Gt: ast.Lt,
+    ast.GtE: ast.LtE,
+}
 
 SAFE_DECORATORS_FOR_ARGSPEC_TO_RETVAL = [KnownValue(asynq.asynq), KnownValue(property)]
 if sys.version_info < (3, 11):
@@ -3560,8 +3566,9 @@ class NameCheckVisitor(node_visitor.ReplacingNodeVisitor):
         elif isinstance(rhs_constraint, PredicateProvider) and isinstance(
             lhs, KnownValue
         ):
+            # The constant is on the left: "2 < len(x)" means "len(x) > 2".
             constraint = self._constraint_from_predicate_provider(
-                rhs_constraint, lhs.val, op
+                rhs_constraint, lhs.val, MIRRORED_COMPARATORS.get(type(op), type(op))()
             )
         elif isinstance(rhs, KnownValue):
             constraint = self._constraint_from_compare_op(
